@@ -732,7 +732,31 @@ type rangeState struct {
 func (x *Exec) rangeInit(bc *blockCtx, i *ssa.Range) *Val {
 	v := &Val{Typ: i.Type(), T: x.term(bc, i.X)}
 	x.rangeOf[i] = i.X.Type()
+	if mt, ok := i.X.Type().Underlying().(*types.Map); ok {
+		// ghost set of the keys already yielded by this iteration
+		key := x.visitKey(i, mt)
+		ks := x.so.SortOf(mt.Key())
+		as := fmt.Sprintf("(Array %s Bool)", ks)
+		bc.st.heaps[key] = x.b.App(fmt.Sprintf("(as const %s)", as), as, x.b.False)
+	}
 	return v
+}
+
+// visitKey names the ghost "visited" set of a map iteration.
+func (x *Exec) visitKey(i *ssa.Range, mt *types.Map) string {
+	if x.rangeIDs == nil {
+		x.rangeIDs = map[*ssa.Range]int{}
+	}
+	id, ok := x.rangeIDs[i]
+	if !ok {
+		id = len(x.rangeIDs) + 1
+		x.rangeIDs[i] = id
+	}
+	key := fmt.Sprintf("G_visit_%d", id)
+	if _, ok := x.heapSorts[key]; !ok {
+		x.heapSorts[key] = fmt.Sprintf("(Array %s Bool)", x.so.SortOf(mt.Key()))
+	}
+	return key
 }
 
 func (x *Exec) rangeNext(bc *blockCtx, i *ssa.Next) *Val {
@@ -747,12 +771,22 @@ func (x *Exec) rangeNext(bc *blockCtx, i *ssa.Next) *Val {
 	}
 	it := i.Iter.(*ssa.Range)
 	mt := it.X.Type().Underlying().(*types.Map)
-	x.note("range over map: abstract iteration (any order; every yielded key is present)")
+	x.note("range over map: any order; every yielded key is present and not yielded before; the iteration ends only when every present key has been yielded (the map is assumed not to be modified by the loop body)")
 	key, inner, opt := x.mapHeap(mt)
 	m := x.term(bc, it.X)
 	k := x.havoc(mt.Key(), "range_key", bc.reach)
 	cell := x.sel(x.sel(x.getHeap(bc.st, key), m, inner), k.T, opt)
 	x.assume(bc.reach, x.b.Implies(ok, x.b.App("(_ is some_"+opt+")", "Bool", cell)))
+	{
+		vk := x.visitKey(it, mt)
+		vis := x.getHeap(bc.st, vk)
+		x.assume(bc.reach, x.b.Implies(ok, x.b.Not(x.sel(vis, k.T, "Bool"))))
+		x.qseq++
+		bv := x.b.BoundVar(fmt.Sprintf("rk!q%d", x.qseq), x.so.SortOf(mt.Key()))
+		pres := x.b.App("(_ is some_"+opt+")", "Bool", x.sel(x.sel(x.getHeap(bc.st, key), m, inner), bv, opt))
+		x.assume(bc.reach, x.b.Implies(x.b.Not(ok), x.b.Quant("forall", []*smt.Term{bv}, x.b.Implies(pres, x.sel(vis, bv, "Bool")))))
+		bc.st.heaps[vk] = x.b.Ite(ok, x.sto(vis, k.T, x.b.True), vis)
+	}
 	vs := x.so.SortOf(mt.Elem())
 	v := &Val{Typ: mt.Elem(), T: x.b.App("val_"+opt, vs, cell)}
 	return &Val{Typ: tup, Tup: []*Val{{Typ: boolT, T: ok}, k, v}}
